@@ -23,6 +23,25 @@ ARQ = ("Modelled, not verified: f64 rounding (exact integer lengths, multiples o
        "unbounded recursion, adequacy is a theorem under the arena invariant (depth < size by pigeonhole); stack depth on extremely deep trees. ")
 
 CLAIMS = {
+ "C04": dict(
+   text="Kernel-checked theorems (1) on a state-machine model of the two RefCell caches: after the documented reset a query returns the value for the current tree, any number of "
+        "queries return that value and never change the tree (induction over the query list), an edit followed by the reset is seen by every later query, and without the reset a "
+        "stale answer is possible (witness); (2) on the arena model: removed slots are never listed, found, used as root or entered by the abstraction all rose-level queries go "
+        "through. The crate's cached queries are tied to the cache-free model by random edit histories in six arena layouts interleaved with the reset and with all queries in random "
+        "order and multiplicity (id-level answers vs the model), and the property itself is evaluated on the real code: a 31-query battery answered by name on the edited tree, "
+        "on a tree freshly parsed from its Newick text, and a second time in another order.",
+   note=NOTE + ARQ + "The per-node subtree_distances cache is covered by the battery (distance_matrix on edited trees vs fresh parse) and by C08, not by a theorem of its own.",
+   technique="Lean 4 proofs on a cache state machine and on the arena queries + differential execution of interleaved edit/query histories vs model and vs fresh parse", ref="5 C04"),
+ "C11": dict(
+   text="Kernel-checked theorems: prune terminates and removes exactly the chosen subtree (a slot dies iff it lies below the node; every other slot is unchanged except the parent's "
+        "child list); the regrouping step of merge_children/resolve has the exact frame (new node = fresh slot with children [c1,c2], parent's list = old list minus them plus the new "
+        "node, every other slot untouched) and with the depth repair preserves the invariant; merging non-siblings, a node with itself or a removed node is refused with the arena "
+        "unchanged; splicing out unary nodes keeps every leaf-to-leaf path length (rose level); rescale multiplies both records of every length and nothing else; ladderize's sort is a "
+        "permutation ordered by descendant count. Tied to the crate by executing every operation with EVERY argument on every small shape (plus random) in five arena layouts, "
+        "comparing the arena slot by slot with the model and with rose-level expectations computed by the harness (exact result for prune/merge/rescale; leaf set, all leaf-pair "
+        "distances and the postcondition for compress/resolve/ladderize). resolve: the random choices are read back from the result and replayed through the model.",
+   note=NOTE + ARQ + "resolve's postcondition (no node with more than two children) over the whole loop is decided by oracle and correspondence; the theorem covers one round.",
+   technique="Lean 4 frame/invariant proofs for the mutators + exhaustive-argument differential execution with rose-level expectations", ref="5 C11"),
  "C09": dict(
    text="Kernel-checked theorems on the arena model of get_path_from_root / get_common_ancestor / get_distance under the structural arena invariant, for arenas of "
         "any size: the root path exists, is unique and is what the query returns (fuel adequacy by pigeonhole); for two distinct nodes of the same tree the reported "
